@@ -63,10 +63,12 @@ def bbox(s):
     return s["pos"][0] - w / 2, s["pos"][0] + w / 2, s["pos"][1] - l / 2, s["pos"][1] + l / 2
 
 
-def satisfiable(p, ranges):
-    """Threshold atoms must cut the middle 80% of the object's coordinate range."""
+def satisfiable(p, ranges, turns):
+    """Threshold atoms must cut the middle 80% of the object's coordinate range; heading comparisons need a random heading."""
     if p[0] in ("or", "and", "not"):
-        return all(satisfiable(q, ranges) for q in p[1:])
+        return all(satisfiable(q, ranges, turns) for q in p[1:])
+    if p[0] == "hdg_lt":
+        return turns[p[1]] or turns[p[2]]
     if p[0] in ("x_lt_c", "y_lt_c"):
         r = ranges[p[1]]
         if r is None:
@@ -223,7 +225,7 @@ def generate(t):
             reqs.insert(0, {"pred": ("y_lt_c", i, round(ranges[i][2] + 0.1 * (ranges[i][3] - ranges[i][2]), 3)), "prob": None})
     seen, kept = set(), []
     for r in reqs:  # drop unsatisfiable thresholds and requirements that could contradict an earlier one (same atom kind, same object)
-        if satisfiable(r["pred"], ranges) and not (atom_keys(r["pred"]) & seen):
+        if satisfiable(r["pred"], ranges, [bool(o["facing"]) for o in objs]) and not (atom_keys(r["pred"]) & seen):
             kept.append(r)
             seen |= atom_keys(r["pred"])
     order = t.permutation(len(kept), "reqorder") if len(kept) > 1 and t.chance(1, 3, "shuffle-reqs") else range(len(kept))
